@@ -139,6 +139,10 @@ template <typename Int, typename U, bool Strong>
 std::string range_line(fcppt::int_range<Int> const &r, __int128 const b, __int128 const e)
 {
   static_assert(std::is_same_v<typename fcppt::int_range<Int>::size_type, U>);
+  static_assert(std::is_same_v<typename fcppt::int_range<Int>::value_type, Int>);
+  static_assert(std::is_same_v<typename fcppt::int_range<Int>::iterator, fcppt::int_iterator<Int>>);
+  static_assert(std::is_same_v<typename fcppt::int_range<Int>::const_iterator, fcppt::int_iterator<Int>>);
+  static_assert(std::is_same_v<typename std::iterator_traits<fcppt::int_iterator<Int>>::iterator_category, std::input_iterator_tag>);
   std::vector<U> vals;
   vals.reserve(cap);
   bool overrun = false;
@@ -199,6 +203,9 @@ template <typename It, typename Mk, typename Shw>
 std::string iter_ops_line(Mk const &mk, Shw const &shw, bool const incr_is_ub, __int128 const a, __int128 const b)
 {
   It const ia{mk(a)}, ib{mk(b)};
+  // the public members the operators are made of, called directly
+  if (ia.equal(ib) != (ia == ib) || ib.equal(ia) != (ib == ia) || !ia.equal(ia))
+    return "equal-mismatch";
   std::string r = std::string("eq=") + (ia == ib ? "1" : "0") + " ne=" + (ia != ib ? "1" : "0") + " self=" + (ia == ia ? "1" : "0") +
                   (ia != ia ? "1" : "0") + " d=" + shw(ia) + "," + shw(ib) + " post=";
   if (incr_is_ub)
@@ -209,7 +216,9 @@ std::string iter_ops_line(Mk const &mk, Shw const &shw, bool const incr_is_ub, _
     It const old{x++};
     It y{ia};
     It &ref{++y};
-    r += shw(old) + ">" + shw(x) + (&ref == &y && y == x ? "" : "!pre");
+    It w{ia};
+    w.increment();
+    r += shw(old) + ">" + shw(x) + (&ref == &y && y == x && w == x ? "" : "!pre");
   }
   It x{ia}, y{ib};
   x.swap(y);
@@ -354,6 +363,11 @@ enum class e9 : std::uint8_t { v0, v1, v2, v3, v4, v5, v6, v7, v8, fcppt_maximum
 // the boundary of the size_type: 256 enumerators over an 8-bit type
 enum class e256 : std::uint8_t { v0 = 0, fcppt_maximum = 255 };
 
+// the constexpr members in constant expressions.  int_range<Int>::size() is declared constexpr but calls the non-constexpr
+// type_iso::undecorate, so it can never be evaluated at compile time (observation, notes/C18.md); the constructor can.
+[[maybe_unused]] constexpr fcppt::int_range<int> constexpr_int_range(4, 1);
+static_assert(fcppt::enum_::range<e5>(1, 4).size() == 3);
+
 template <typename E>
 std::string enum_line(fcppt::enum_::range<E> const &r)
 {
@@ -479,14 +493,22 @@ std::string cyc_line(std::vector<std::string> const &t)
   iterator d{it0};
   d -= -k;
   iterator const e{k + it0};
-  bool const alt = a == b && a == c && a == d && a == e && a.get() == b.get() && a.get() == c.get() && a.get() == d.get() && a.get() == e.get();
+  iterator g{it0};
+  g.advance(k); // the public member behind += called directly
+  bool const alt = a == b && a == c && a == d && a == e && a.get() == b.get() && a.get() == c.get() && a.get() == d.get() && a.get() == e.get() &&
+                   g.get() == a.get() && a.equal(g) && it0.distance_to(a) == a - it0 && a.dereference() == *a;
   iterator st{it0};
   for (long long i = 0; i < (k < 0 ? -k : k); ++i)
   {
+    // alternate between the operators and the public members behind them
     if (k < 0)
-      --st;
+    {
+      if (i % 2 == 0) --st; else st.decrement();
+    }
     else
-      ++st;
+    {
+      if (i % 2 == 0) ++st; else st.increment();
+    }
   }
   auto const idx = [&v](iterator const &i) { return static_cast<long long>(i.get() - v.begin()); };
   bool const inb = f <= idx(a) && idx(a) < s && f <= idx(st) && idx(st) < s;
